@@ -459,7 +459,61 @@ func C08(p *ir.Program, r *report.R) {
 					root := ir.RootOf(st.Base)
 					al, ok := root.(*ssa.Alloc)
 					if !ok {
-						continue // writes through a pointer held elsewhere (decoders fill fresh objects: no cache yet)
+						// signature values written into an EXISTING transaction object (receiver, parameter, field):
+						// its hash and size caches were computed for the old signature and must be reset here too
+						nHash := 0
+						for _, cache := range []string{"hash", "size"} {
+							for _, owner := range []string{"Transaction", "TokenTransaction", "UTXOTransaction"} {
+								if cf := p.TryField("types", owner+"."+cache); cf != nil {
+									for _, s3 := range p.Stores(cf) {
+										if s3.Fn == fn && ir.RootOf(s3.Base) == root {
+											nHash++
+										}
+									}
+								}
+							}
+						}
+						// ... and the sender cache inside the payload
+						fromReset := false
+						for _, s3 := range p.Stores(fvF) {
+							if s3.Fn == fn && ir.RootOf(s3.Base) == root {
+								fromReset = true
+							}
+						}
+						if !fromReset {
+							nHash = 0
+						}
+						// a helper that fills the object it is handed is fine when every caller hands it a fresh local
+						// (decoders: `var dec txdata; dec.UnmarshalJSON(..)`, signToBytes(&signdata{}, ..))
+						freshAtCallers := false
+						if q, isParam := root.(*ssa.Parameter); isParam && fn.Object() != nil {
+							idx := -1
+							for i, x := range fn.Params {
+								if x == q {
+									idx = i
+								}
+							}
+							sites := 0
+							allFresh := true
+							for _, cs := range p.CallSites(fn.Object().(*types.Func)) {
+								if strings.HasSuffix(p.Pos(cs.Fn.Pos()), "_test.go") {
+									continue
+								}
+								sites++
+								args := operandArgs(cs.Instr)
+								if idx < 0 || idx >= len(args) {
+									allFresh = false
+									continue
+								}
+								if _, isAlloc := ir.RootOf(args[idx]).(*ssa.Alloc); !isAlloc {
+									allFresh = false
+								}
+							}
+							freshAtCallers = sites > 0 && allFresh
+						}
+						r.Check("K4", "signature-caches/no-in-place-resign/"+ir.FuncName(fn), p.InstrPos(st.Instr), nHash >= 2 || freshAtCallers,
+							"signature values are written into an object the function was handed: every caller hands it a fresh local, or the object's sender/hash/size caches are reset in the same function")
+						continue
 					}
 					// is the allocation initialised from an existing payload (struct copy)?
 					copied := false
